@@ -249,4 +249,34 @@ theorem mean_bounds (a : ℕ → ℝ) (m : ℕ) (lo hi : ℝ) (hm : 1 ≤ m) (h 
   · rw [le_div_iff₀ hpos]; exact hlo
   · rw [div_le_iff₀ hpos]; exact hhi
 
+/-- prefix counts: the empty prefix holds nothing, one more position adds its indicator -/
+theorem cnt_step (a : ℕ → ℤ) (q : ℤ) (j : ℕ) : cnt a q 0 = 0 ∧ cnt a q (j + 1) = cnt a q j + ind q (a j) := by
+  unfold cnt
+  constructor
+  · simp
+  · rw [Finset.sum_range_succ]
+
+/-- when every counter is at least lim, one counter is at most the total minus (k-1)*lim -/
+theorem sum_one_out (C : ℕ → ℤ) (lim : ℤ) (k c0 : ℕ) (h : ∀ c, c < k → lim ≤ C c) (hc : c0 < k) :
+    (k : ℤ) * lim - lim + C c0 ≤ sumI C k := by
+  unfold sumI
+  have h1 : ∑ i ∈ range k, C i = ∑ i ∈ (range k).erase c0, C i + C c0 := by
+    rw [Finset.sum_erase_add _ _ (Finset.mem_range.mpr hc)]
+  have h2 : ∑ _i ∈ (range k).erase c0, lim ≤ ∑ i ∈ (range k).erase c0, C i := by
+    apply Finset.sum_le_sum
+    intro i hi
+    exact h i (Finset.mem_range.mp (Finset.mem_of_mem_erase hi))
+  rw [Finset.sum_const, Finset.card_erase_of_mem (Finset.mem_range.mpr hc), Finset.card_range] at h2
+  rw [h1]
+  have hk : 1 ≤ k := by omega
+  have h3 : ((k - 1 : ℕ) : ℤ) = (k : ℤ) - 1 := by omega
+  simp only [nsmul_eq_mul] at h2
+  rw [h3] at h2
+  linarith
+
+/-- products of two symbolic sizes (the solver is given these instances; it does not do non-linear arithmetic by itself) -/
+theorem mul_steps (c j n : ℤ) (hc : 0 ≤ c) (hj : 0 ≤ j) :
+    0 ≤ c * j ∧ c * (j + 1) = c * j + c ∧ (j + 1 ≤ n → c * (j + 1) ≤ c * n) := by
+  refine ⟨mul_nonneg hc hj, by ring, fun h => mul_le_mul_of_nonneg_left h hc⟩
+
 end Pyvc
